@@ -80,6 +80,18 @@ CLAIMED = {
         "technique": "call-site error-discipline analysis over typed HIR (resolved callees, consumption of io::Result values)",
         "design_ref": "DESIGN.md §3 R-IOERR, §4 C15",
     },
+    "C01": {
+        "text": "Decides structural necessary conditions of encrypt/decrypt correctness: under their literal flags the "
+                "encryption entry points reach the worker of their own kind (secret-key vs public-key) and at least one; "
+                "on each scheme projection every encrypt*/decrypt* entry has a normally-returning path (a dispatch arm "
+                "exists) with flags propagated as constants; on the whole encryption/decryption call tree, per scheme and "
+                "representation assumption, no arithmetic mixes coefficient and NTT form, the level-dependent mod-switch "
+                "of public-key encryption uses the routine of the ciphertext's representation, results leave with data "
+                "matching their flag; the stored seed is written and expanded at the same address and length.",
+        "note": _TB + "Not decided: that decryption returns the plaintext, any noise bound, CKKS encoding error.",
+        "technique": "constant propagation of dispatch flags + scheme projection + representation typestate + address agreement",
+        "design_ref": "DESIGN.md §4 C01",
+    },
     "C02": {
         "text": "Decides structural necessary conditions of exact BFV/BGV evaluation: at every polysmallmod::*_ps call "
                 "the polynomial count is the buffer's own (never another operand's size, through clone chains); every "
@@ -190,7 +202,6 @@ CLAIMED = {
 
 _NYB = "rules designed (DESIGN.md §4) but not built yet in this tree; not claimed until the check exists"
 NOT_APPLICABLE = {
-    "C01": _NYB,
     "C07": "every clause compares a reported integer with exact big-integer arithmetic on runtime phase/noise "
            "values; no necessary condition is visible in the shape of the code (DESIGN.md §5)",
     "C09": _NYB, "C10": _NYB,
